@@ -202,26 +202,48 @@ CFrame(s, sc, e) ==
     ELSE
       IF i > Len(sl)
       THEN [ s |-> [s EXCEPT !.fcount[c + 1] = i, !.fbad[c + 1] = TRUE],
-             v |-> V(FALSE, (IF Fam(sc) \in {"C01", "C10", "C16", "C12", "C09"} THEN Fam(sc) ELSE "C06"), "ExtraFrame") ]
+             v |-> V(FALSE, (IF Fam(sc) \in {"C10", "C16", "C12", "C09"} THEN Fam(sc) ELSE "C06"), "ExtraFrame") ]
       ELSE
-        LET mm == sl[i]  x == M(sc, c, mm)
-            isok == x.cls = "ok"
-            marked == isok /\ x.how \in {"respond", "writer", "upgrade"}
-            rejp == IF isok THEN "C06" ELSE x.why
-            ordp == IF Fam(sc) \in {"C01", "C10", "C06"} THEN Fam(sc) ELSE "C01"
-            wfp == IF Fam(sc) \in {"C01", "C06", "C13", "C15", "C05"} THEN Fam(sc) ELSE "C04"
-            explen == IF isok /\ x.how \in {"respond", "writer"} /\ ~x.nobody THEN x.rlen ELSE -1
-            \* the frame names its owner (X-Id) -- or carries none where one is expected
-            misplaced == IF marked THEN ~(e.oc = c /\ e.om = mm) ELSE e.oc # -1
+        LET \* slot the frame really belongs to: by its X-Id marker, or (library-generated frames
+            \* carry none) the first slot from i on that expects an unmarked frame of this status
+            IsMarked(k) == M(sc, c, sl[k]).cls = "ok" /\ M(sc, c, sl[k]).how \in {"respond", "writer", "upgrade"}
+            cand == IF e.oc >= 0
+                    THEN {k \in 1..Len(sl) : e.oc = c /\ sl[k] = e.om /\ IsMarked(k)}
+                    ELSE IF ~IsMarked(i) THEN {i}
+                    ELSE {k \in (i + 1)..Len(sl) : (~IsMarked(k)) /\ ExpStatus(M(sc, c, sl[k])) = e.st /\ ~SlotDone(s, sc, c, sl[i])}
+            j == IF cand = {} THEN 0 ELSE MinOf(cand)
+            ordp == IF Fam(sc) = "C10" THEN "C10" ELSE "C01"
+            wfp == IF Fam(sc) \in {"C01", "C06"} THEN "C01" ELSE IF Fam(sc) \in {"C13", "C15"} THEN Fam(sc) ELSE "C04"
         IN
         IF ~e.wf
         THEN [ s |-> [s EXCEPT !.fcount[c + 1] = i, !.fbad[c + 1] = TRUE], v |-> V(FALSE, wfp, "FrameMalformed") ]
-        ELSE IF misplaced
-        THEN [ s |-> [s EXCEPT !.fcount[c + 1] = i, !.fbad[c + 1] = TRUE],
-               v |-> V(FALSE, (IF (~isok) /\ e.oc # -1 THEN x.why ELSE ordp), "FrameOutOfOrder") ]
+        ELSE IF j = 0
+        THEN \* no slot for it: a marked frame of a foreign / unknown owner, or an unmarked frame where
+             \* the application's own response was expected
+             [ s |-> [s EXCEPT !.fcount[c + 1] = i, !.fbad[c + 1] = TRUE],
+               v |-> IF e.oc >= 0 THEN V(FALSE, ordp, "FrameOutOfOrder")
+                     ELSE V(FALSE, (IF M(sc, c, sl[i]).cls = "ok" THEN "C06" ELSE M(sc, c, sl[i]).why), "FrameStatus") ]
+        ELSE IF j < i
+        THEN [ s |-> [s EXCEPT !.fcount[c + 1] = i, !.fbad[c + 1] = TRUE], v |-> V(FALSE, ordp, "FrameOutOfOrder") ]
         ELSE
-        [ s |-> [s EXCEPT !.fcount[c + 1] = i],
-          v |-> V(e.st = ExpStatus(x), rejp, "FrameStatus")
+        LET mm == sl[j]  x == M(sc, c, mm)
+            isok == x.cls = "ok"
+            rejp == IF isok THEN "C06" ELSE x.why
+            explen == IF isok /\ x.how \in {"respond", "writer"} /\ ~x.nobody THEN x.rlen ELSE -1
+            \* slots i..j-1 were skipped: a finished one lost its response (C06), an unfinished one
+            \* was overtaken (C01)
+            skipped == i..(j - 1)
+            lost == {k \in skipped : SlotDone(s, sc, c, sl[k])}
+            overtaken == skipped \ lost
+            lostp == IF \E k \in lost : M(sc, c, sl[k]).cls # "ok" THEN M(sc, c, sl[CHOOSE k \in lost : M(sc, c, sl[k]).cls # "ok"]).why ELSE "C06"
+        IN
+        [ s |-> [s EXCEPT !.fcount[c + 1] = j,
+                          \* a body that is not the owner's is the trace of foreign bytes: what the
+                          \* client parses after it on this connection proves nothing any more
+                          !.fbad[c + 1] = (~e.bm) \/ (explen >= 0 /\ e.blen # explen) \/ overtaken # {}],
+          v |-> V(overtaken = {}, ordp, "FrameOutOfOrder")
+                \o V(lost = {}, lostp, "ResponseMissing")
+                \o V(e.st = ExpStatus(x), rejp, "FrameStatus")
                 \o V(isok => s.ans[c + 1][mm + 1] # "none", "C06", "FrameBeforeAnswer")
                 \o V(isok => mm \in s.deliv[c + 1], "C06", "FrameForUndelivered")
                 \o V(e.bm, wfp, "FrameBodyDiffers")
@@ -242,24 +264,26 @@ CEof(s, sc, e) ==
         pending == {mm \in s.deliv[c + 1] : \E i \in 1..Len(sl) : sl[i] = mm /\ i > s.fcount[c + 1]}
     IN
     [ s |-> [s EXCEPT !.ceof[c + 1] = TRUE],
-      v |-> IF gone THEN <<>>
+      v |-> IF gone \/ s.fbad[c + 1] THEN <<>>
             ELSE V(Stopped(s, sc, c) \/ s.fault[c + 1] = "half", EofOwner(s, sc, c), "ClosedWhileUsable")
                  \o V(pending = {}, EofOwner(s, sc, c), "ClosedBeforeAnswering") ]
 
 CJunk(s, sc, e) ==
     [ s |-> [s EXCEPT !.junk[e.c + 1] = TRUE],
-      v |-> V(s.fault[e.c + 1] \in {"close", "reset"},
-              (IF Fam(sc) \in {"C01", "C06", "C13", "C15", "C10", "C16"} THEN Fam(sc) ELSE "C04"), "UnparsableBytes") ]
+      v |-> V(s.fault[e.c + 1] \in {"close", "reset"} \/ s.fbad[e.c + 1],
+              (IF Fam(sc) \in {"C01", "C06"} THEN "C01" ELSE IF Fam(sc) \in {"C13", "C15", "C10", "C16"} THEN Fam(sc) ELSE "C04"), "UnparsableBytes") ]
 
 \* "nothing is owed": rb = some receiver is blocked in (or about to make) a receive call
-Quiescent(s, sc, e, rb) ==
+Quiescent(s, sc, e, rb, dropped) ==
     LET ph == e.ph
         conns == {c \in 0..(NC(sc) - 1) : s.fault[c + 1] \in {"none", "half"} /\ ~sc.conns[c + 1].noread}
         stallp(c, m) ==
-            IF Fam(sc) \in {"C07", "C08", "C11", "C18", "C09", "C10", "C16", "C12", "C15", "C13", "C20"} THEN Fam(sc) ELSE "C11"
+            IF Fam(sc) \in {"C07", "C08", "C11", "C18", "C09", "C10", "C16", "C12", "C15", "C13"} THEN Fam(sc)
+            ELSE IF Fam(sc) = "C20" THEN "C08" ELSE IF Fam(sc) = "C03" THEN "C09" ELSE "C11"
         undeliv(c) == {m \in 0..(NM(sc, c) - 1) : Deliverable(s, sc, c, m) /\ m \notin s.deliv[c + 1]}
         owed(c) == FramesOwed(s, sc, c)
-        frp(c) == IF Fam(sc) \in {"C01", "C06", "C10", "C16", "C08", "C12", "C15", "C18", "C20", "C09", "C13"} THEN Fam(sc) ELSE "C06"
+        frp(c) == IF Fam(sc) \in {"C10", "C16", "C08", "C12", "C15", "C18", "C09", "C13"} THEN Fam(sc)
+                  ELSE IF Fam(sc) = "C20" /\ dropped THEN "C20" ELSE "C06"
         eofowed(c) ==
             /\ s.fault[c + 1] \in {"none", "half"}
             /\ DonePrefix(s, sc, c, 1) = Len(Slots(sc, c))
@@ -275,11 +299,11 @@ Quiescent(s, sc, e, rb) ==
       v |-> (IF rb /\ ph <= 1
              THEN V(\A c \in conns : undeliv(c) = {}, stallp(0, 0), "RequestNotDelivered")
              ELSE <<>>)
-            \o V(\A c \in conns : s.fcount[c + 1] >= owed(c), frp(0), "ResponseNotReceived")
+            \o V(\A c \in conns : s.fbad[c + 1] \/ s.fcount[c + 1] >= owed(c), frp(0), "ResponseNotReceived")
             \o V(\A c \in conns : eofowed(c) => s.ceof[c + 1], (IF Fam(sc) \in {"C10", "C16", "C15", "C20"} THEN Fam(sc) ELSE "C12"), "NotClosedAfterLastResponse")
             \o V(\A c \in 0..(NC(sc) - 1) : (s.fault[c + 1] \in {"close", "reset", "half"} /\ s.sent[c + 1] < 10000000) => ~(stuckread(c) /\ ph >= 1), "C15", "BodyReadBlockedForever") ]
 
-CStep(s, sc, e, rb) ==
+CStep(s, sc, e, rb, dropped) ==
     CASE e.ev = "CSend" -> CSend(s, sc, e)
       [] e.ev = "CHalf" -> CFault(s, sc, e, "half")
       [] e.ev = "CClose" -> CFault(s, sc, e, "close")
@@ -295,6 +319,6 @@ CStep(s, sc, e, rb) ==
       [] e.ev = "CEof" -> CEof(s, sc, e)
       [] e.ev = "CErr" -> CEof(s, sc, e)
       [] e.ev = "CJunk" -> CJunk(s, sc, e)
-      [] e.ev = "Quiescent" -> Quiescent(s, sc, e, rb)
+      [] e.ev = "Quiescent" -> Quiescent(s, sc, e, rb, dropped)
       [] OTHER -> [s |-> s, v |-> <<>>]
 =============================================================================
